@@ -348,6 +348,27 @@ def saveHeader : Str :=
 
 def emitPrivate (p : TPriv) : Str := saveHeader ++ emitDoc (privDoc p)
 
+/-- `"## Put your description here for convenience ##"` (`ServerToml.String`, config.go) -/
+def placeholder2 : Str :=
+  [35, 35, 32, 80, 117, 116, 32, 121, 111, 117, 114, 32, 100, 101, 115, 99, 114, 105, 112, 116, 105, 111, 110, 32, 104, 101,
+   114, 101, 32, 102, 111, 114, 32, 99, 111, 110, 118, 101, 110, 105, 101, 110, 99, 101, 32, 35, 35]
+
+/-- `ServerToml.String()`: one server on its own — the keys at top level, the `Services` map as
+`[Services.name]` tables; an empty description becomes a placeholder -/
+def serverDoc (t : TServer) : Doc :=
+  { array := false, path := [],
+    kvs := [(kAddress, t.address), (kSuite, t.suite), (kPublic, t.pub),
+            (kDescription, if t.description = [] then placeholder2 else t.description)] ++
+      (if t.url = [] then [] else [(kURL, t.url)]) } ::
+  match t.services with
+  | none => []
+  | some l =>
+    { array := false, path := [kServices], kvs := [] } ::
+      (sortSvcs l).map fun e =>
+        { array := false, path := [kServices, e.name], kvs := [(kPublic, e.pub), (kSuite, e.suite)] }
+
+def emitServer (t : TServer) : Str := emitDoc (serverDoc t)
+
 /-- two keys of one table that differ only in case (`app.ambiguousKeys`), or the same key twice -/
 def ambiguous : List Str → Bool
   | [] => false
